@@ -4,79 +4,34 @@
 // TSIG RR with `response.set_tsig(...).unwrap()`.  set_tsig fails with
 // Truncation when the space to reserve (key name + algorithm name + 26, + MAC
 // size for signed modes, + 6 for BADTIME) does not fit the response size
-// limit; the unwrap then panics.  This is decided as a LENGTH question: the
-// names have concrete contents ('x' labels) and concrete lengths taken from a
-// small grid that includes the 255-octet maximum; the response buffer is the
-// 512-octet UDP response that Server::handle_message uses without EDNS.
+// limit; the unwrap then panics.  This is decided as a LENGTH question: names
+// with concrete contents ('x' labels) and concrete lengths from a small grid
+// that includes the 255-octet maximum, in the 512-octet UDP response that
+// Server::handle_message uses without EDNS.
 //
-// This family deliberately has NO hashmap_model transform (it is selected
-// together with server_small under C01); Algorithm::from_name, which would
-// reach the lazy_static std HashMap, is replaced (S5b), and the key map is an
-// empty std HashMap built without RandomState::new().
+// The harnesses make the reservation exactly as the helpers make it for a
+// BADKEY response (Writer::set_tsig with TsigMode::Unsigned and a
+// PreparedTsigRr), with names from the real constructor and no stub: set_tsig
+// succeeds exactly when question + TSIG RR fit the limit.  The `Err` for
+// (1, 255, 255) and (255, 255, 13) is what the `.unwrap()` at mod.rs:621-628,
+// 653-660 and 722-727 turns into a panic; that last step is reproduced
+// natively through Server::handle_message with a 553-octet request (see
+// /verif/proposed_fixes/tsig-reservation-unwrap.md).
 //
-// Stubs: S5a (Algorithm::name -> static views), S5b (Algorithm::from_name ->
-// octet comparison).  Neither takes part in the length arithmetic that fails;
-// native replay runs the real functions.
+// Not registered here: harnesses that call the three helpers themselves with
+// 255-octet names.  Two variants were tried (ReadTsigRr from the real try_from;
+// ReadTsigRr built from static name views through a stub bridge) and neither
+// finished within 30 min: every loop over such a name is unwound to the bound.
 //
-// Two levels:
-//  * c01_tsig_reserve_*: the real server helpers.  The ReadTsigRr they get is
-//    built from static name representations (through a bridge into
-//    tsig_mac.rs, because its fields are private): ReadTsigRr::try_from on a
-//    255-octet name lower-cases every octet in loops whose bounds CBMC
-//    cannot see (measured: no result in 30 min).  The helpers themselves only
-//    clone the names and add up their lengths.
-//  * c01_set_tsig_*: the reservation made directly with Writer::set_tsig and
-//    a PreparedTsigRr / TsigMode::Unsigned as the helpers build them, names
-//    from the real constructor, no stub at all: set_tsig fails exactly when
-//    question + TSIG RR exceed the limit.
+// This family has NO hashmap_model transform (it is selected together with
+// server_small under C01) and reaches neither HashMap nor HMAC.
 
 use super::*;
 use crate::kani_common::*;
 use crate::message::{Qclass, Qtype};
-use crate::rr::Ttl;
-use std::collections::hash_map::RandomState;
-
-static SHA256_REPR: [u8; 16] = [2, 0, 12, 11, b'h', b'm', b'a', b'c', b'-', b's', b'h', b'a', b'2', b'5', b'6', 0];
-static SHA1_REPR: [u8; 14] = [2, 0, 10, 9, b'h', b'm', b'a', b'c', b'-', b's', b'h', b'a', b'1', 0];
-const SHA1_WIRE: [u8; 11] = [9, b'h', b'm', b'a', b'c', b'-', b's', b'h', b'a', b'1', 0];
-const SHA256_WIRE: [u8; 13] = [11, b'h', b'm', b'a', b'c', b'-', b's', b'h', b'a', b'2', b'5', b'6', 0];
-
-fn alg_name_static(alg: &Algorithm) -> &'static LowercaseName {
-    let repr: &'static [u8] = match alg {
-        Algorithm::HmacSha1 => &SHA1_REPR,
-        Algorithm::HmacSha256 => &SHA256_REPR,
-    };
-    unsafe { &*(core::ptr::slice_from_raw_parts(repr.as_ptr(), repr.len() - 1) as *const LowercaseName) }
-}
-
-fn same_caseless(a: &[u8], b: &[u8]) -> bool {
-    if a.len() != b.len() {
-        return false;
-    }
-    let mut i = 0;
-    let mut same = true;
-    while i < b.len() {
-        if lower(a[i]) != lower(b[i]) {
-            same = false;
-        }
-        i += 1;
-    }
-    same
-}
-
-fn from_name_model(name: &Name) -> Option<Algorithm> {
-    let w = name.wire_repr();
-    if same_caseless(w, &SHA1_WIRE) {
-        Some(Algorithm::HmacSha1)
-    } else if same_caseless(w, &SHA256_WIRE) {
-        Some(Algorithm::HmacSha256)
-    } else {
-        None
-    }
-}
 
 /// Wire form of a name of exactly N octets (N in 1, 3..=65, 128, 255) made of 'x' labels.
-const fn x_name<const N: usize>() -> [u8; N] {
+fn x_name<const N: usize>() -> [u8; N] {
     let mut w = [b'x'; N];
     // labels of 63 octets while more than 65 octets remain, then one label
     // that uses up the rest, then the root label
@@ -96,161 +51,6 @@ const fn x_name<const N: usize>() -> [u8; N] {
     w[N - 1] = 0;
     w
 }
-
-/// In-memory representation of the same name: [n_labels, label offsets.., wire..];
-/// R = 1 + n_labels + N.
-const fn x_repr<const N: usize, const R: usize>() -> [u8; R] {
-    let w = x_name::<N>();
-    let n_labels = R - 1 - N;
-    let mut r = [0u8; R];
-    r[0] = n_labels as u8;
-    let mut off = 0usize;
-    let mut i = 0;
-    while i < n_labels {
-        r[1 + i] = off as u8;
-        off += 1 + w[off] as usize;
-        i += 1;
-    }
-    let mut j = 0;
-    while j < N {
-        r[1 + n_labels + j] = w[j];
-        j += 1;
-    }
-    r
-}
-
-/// TSIG RDATA with an empty MAC: algorithm name (LA octets) + 16 (fudge 300).
-const fn x_rdata<const LA: usize, const NR: usize>(known: bool) -> [u8; NR] {
-    let an = x_name::<LA>();
-    let mut rd = [0u8; NR];
-    let mut i = 0;
-    while i < LA {
-        rd[i] = if known { SHA256_WIRE[i] } else { an[i] };
-        i += 1;
-    }
-    rd[LA + 6] = 1;
-    rd[LA + 7] = 44;
-    rd
-}
-
-// 255 octets: labels 63, 63, 63, 61, root (5 labels); 64 octets: 62, root (2 labels)
-static K255: [u8; 261] = x_repr::<255, 261>();
-static K64: [u8; 67] = x_repr::<64, 67>();
-static RD_X255: [u8; 271] = x_rdata::<255, 271>(false);
-static RD_X64: [u8; 80] = x_rdata::<64, 80>(false);
-static RD_SHA256: [u8; 29] = x_rdata::<13, 29>(true);
-
-/// Body supplied by #[kani::stub] from tsig_mac.rs (ReadTsigRr has private
-/// fields): a ReadTsigRr with these names and RDATA, as try_from builds it.
-fn view_tsig_rr(_key_repr: &'static [u8], _alg_repr: &'static [u8], _rdata: &'static [u8]) -> ReadTsigRr<'static> {
-    panic!("view_tsig_rr must be stubbed")
-}
-
-fn empty_keys() -> TsigKeyMap {
-    // RandomState::new() reaches getrandom (FFI); an empty map never hashes.
-    let rs: RandomState = unsafe { core::mem::transmute([1u64, 2u64]) };
-    HashMap::with_hasher(rs)
-}
-
-#[derive(Clone, Copy, PartialEq, Eq)]
-enum Site {
-    /// find_tsig_algorithm_or_write_error, unknown algorithm (mod.rs:621-628)
-    UnknownAlgorithm,
-    /// find_tsig_key_or_write_error, unknown key (mod.rs:653-660)
-    UnknownKey,
-    /// verify_tsig_and_write_tsig_rr, MAC of unacceptable size (mod.rs:722-727)
-    BadMacSize,
-}
-
-/// One of the three helpers on a request whose question has the root QNAME
-/// (17-octet query) and whose TSIG RR has the given key name / RDATA; the
-/// response is the 512-octet UDP response of a request without EDNS.
-fn reservation(site: Site, long_qname: bool, key_repr: &'static [u8], alg_repr: &'static [u8], rdata: &'static [u8]) {
-    let now: [u8; 6] = kani::any();
-    let tsig_rr = view_tsig_rr(key_repr, alg_repr, rdata);
-    let mut buf = [0u8; 512];
-    let mut response = Writer::new(&mut buf, 512).unwrap();
-    response.set_qr(true);
-    let qname: Box<Name> = if long_qname {
-        // a view of the 255-octet name (never dropped)
-        unsafe { Box::from_raw(core::ptr::slice_from_raw_parts(K255.as_ptr(), K255.len() - 1) as *mut Name) }
-    } else {
-        Name::root().to_owned()
-    };
-    let question = Question {
-        qname,
-        qtype: Qtype::from(1),
-        qclass: Qclass::from(1),
-    };
-    response.add_question(&question).unwrap();
-    let now_ts = TimeSigned::from(now);
-    match site {
-        Site::UnknownAlgorithm => {
-            let r = find_tsig_algorithm_or_write_error(&tsig_rr, now_ts, &mut response);
-            assert!(r.is_none(), "[C01] an algorithm name made of 'x' labels is unknown");
-        }
-        Site::UnknownKey => {
-            let keys = empty_keys();
-            let r = find_tsig_key_or_write_error(&tsig_rr, Algorithm::HmacSha256, &keys, now_ts, &mut response);
-            assert!(r.is_none(), "[C01] no key is configured");
-            core::mem::forget(keys);
-        }
-        Site::BadMacSize => {
-            let key: [u8; 2] = [1, 2];
-            let ok = verify_tsig_and_write_tsig_rr(&tsig_rr, &[0u8, 0, 0, 0, 0, 0, 0, 0, 0, 0, 0, 1], Algorithm::HmacSha256, &key, now_ts, &mut response);
-            assert!(!ok, "[C01] an empty MAC never authenticates");
-        }
-    }
-    // reaching this point means the helper did not panic
-    let n = response.finish();
-    assert!(n >= 17 && n <= 512, "[C01] response length");
-    kani::cover!(true, "the helper returned without panicking");
-    core::mem::forget(tsig_rr);
-    core::mem::forget(question);
-}
-
-macro_rules! reservation_harness {
-    ($name:ident, $site:expr, $lq:literal, $k:expr, $a:expr, $rd:expr) => {
-        #[kani::proof]
-        #[kani::unwind(8)]
-        #[kani::stub(crate::message::tsig::Algorithm::name, alg_name_static)]
-        #[kani::stub(crate::message::tsig::Algorithm::from_name, from_name_model)]
-        #[kani::stub(view_tsig_rr, crate::message::tsig::kani_tsig_mac::view_tsig_rr_impl)]
-        fn $name() {
-            reservation($site, $lq, $k, $a, $rd);
-        }
-    };
-}
-
-// @harness name=c01_tsig_reserve_fits_64_64 props=C01 tier=quick mem=6 t=1800 stubs="S5a,S5b" kani="--no-assertion-reach-checks"
-//   fn="find_tsig_algorithm_or_write_error,PreparedTsigRr::new_from_read,PreparedTsigRr::unsigned_len,Writer::set_tsig,Writer::finish"
-//   bound="[C01]/D7: 17-octet query, key name of 64 octets, unknown algorithm name of 64 octets ('x' labels), empty MAC; 512-octet response; 17+64+10+64+16 = 171 <= 512: must not panic; unwind 8"
-//   sym="now"
-reservation_harness!(c01_tsig_reserve_fits_64_64, Site::UnknownAlgorithm, false, &K64, &K64, &RD_X64);
-
-// @harness name=c01_tsig_reserve_unknown_alg_255_255 props=C01 tier=quick mem=6 t=1800 stubs="S5a,S5b" kani="--no-assertion-reach-checks"
-//   fn="find_tsig_algorithm_or_write_error,PreparedTsigRr::new_from_read,PreparedTsigRr::unsigned_len,Writer::set_tsig"
-//   bound="[C01]/D7: 17-octet query, key name 255 octets, unknown algorithm name 255 octets; 17+255+10+255+16 = 553 > 512 (a 553-octet request); unwind 8"
-//   sym="now"
-reservation_harness!(c01_tsig_reserve_unknown_alg_255_255, Site::UnknownAlgorithm, false, &K255, &K255, &RD_X255);
-
-// @harness name=c01_tsig_reserve_unknown_key_255_x255 props=C01 tier=quick mem=6 t=1800 stubs="S5a,S5b" kani="--no-assertion-reach-checks"
-//   fn="find_tsig_key_or_write_error,PreparedTsigRr::new_from_read,PreparedTsigRr::unsigned_len,Writer::set_tsig"
-//   bound="[C01]/D7: unknown key name of 255 octets with a 255-octet algorithm name, helper called as for a known algorithm; 553 > 512; unwind 8"
-//   sym="now"
-reservation_harness!(c01_tsig_reserve_unknown_key_255_x255, Site::UnknownKey, false, &K255, &K255, &RD_X255);
-
-// @harness name=c01_tsig_reserve_unknown_key_255_sha256 props=C01 tier=quick mem=6 t=1800 stubs="S5a,S5b" kani="--no-assertion-reach-checks"
-//   fn="find_tsig_key_or_write_error,Writer::set_tsig"
-//   bound="[C01]/D7: unknown key name of 255 octets, algorithm hmac-sha256.: 17+255+10+13+16 = 311 <= 512: must not panic; unwind 8"
-//   sym="now"
-reservation_harness!(c01_tsig_reserve_unknown_key_255_sha256, Site::UnknownKey, false, &K255, &SHA256_REPR, &RD_SHA256);
-
-// @harness name=c01_tsig_reserve_bad_mac_q255_k255 props=C01 tier=quick mem=6 t=1800 stubs="S5a,S5b" kani="--no-assertion-reach-checks"
-//   fn="verify_tsig_and_write_tsig_rr,ReadTsigRr::verify_request,check_mac_size,PreparedTsigRr::new_from_read,Writer::set_tsig"
-//   bound="[C01]/D7: QNAME 255 octets, key name 255 octets, hmac-sha256 with an empty MAC (FORMERR path, unsigned response TSIG): 12+259+255+10+13+16 = 565 > 512; unwind 8"
-//   sym="now"
-reservation_harness!(c01_tsig_reserve_bad_mac_q255_k255, Site::BadMacSize, true, &K255, &SHA256_REPR, &RD_SHA256);
 
 // --------------------------------------------------------------------------
 // Writer level: what the `.unwrap()` of the three helpers relies on
@@ -298,8 +98,8 @@ fn set_tsig_reservation<const LQ: usize, const LK: usize, const LA: usize>() {
     let r = response.set_tsig(mode, prepared);
     let needed = 12 + LQ + 4 + LK + 10 + LA + 16;
     assert!(r.is_ok() == (needed <= 512), "[C01] set_tsig fails exactly when question + TSIG RR exceed the size limit");
-    // mod.rs:621-628, 653-660 and 722-727 call .unwrap() on this result: the
-    // server-level harnesses above decide whether that panics
+    // mod.rs:621-628, 653-660 and 722-727 call .unwrap() on this result; the
+    // panic itself is reproduced natively (proposed_fixes/tsig-reservation-unwrap.md)
     kani::cover!(true, "reservation made");
     core::mem::forget(question);
 }
